@@ -26,7 +26,7 @@ import vlib
 
 LEVEL = "model_checking"
 TIERS = {
-    "quick": dict(cases="Quadratics.cfg", target=120, skeleton={"MaxEvents": "4"}, chunk=120000),
+    "quick": dict(cases="Quadratics.cfg", target=160, skeleton={"MaxEvents": "4"}, chunk=120000),
     "thorough": dict(cases="Quadratics_thorough.cfg", target=1500, skeleton={"MaxEvents": "9"}, chunk=150000),
 }
 # routines that must show a return justified by their stopping condition alone (vacuity)
